@@ -60,10 +60,24 @@ def HSt.setQ (s : HSt) (c : Chan) (q : PQ) : HSt :=
 def HSt.find (s : HSt) (id : Nat) : Option Msg := s.msgs.find? (·.id == id)
 def HSt.update (s : HSt) (m : Msg) : HSt := { s with msgs := s.msgs.map fun x => if x.id == m.id then m else x }
 
+/-- an injected system failure during one `pass_dochan` pass (harness: the corresponding libc call on the
+started message's file is made to fail):
+`openf` = `open_read(local|remote/<id>)` fails, `info` = `getinfo` fails (both: the `trouble:` exit);
+`unlink` = `unlink` of the channel file in `job_close` fails; `stat` = `stat` of the *other* channel file in
+`job_close` fails with an error other than `ENOENT` (HOPEFULLY). -/
+inductive Fault where
+  | none | openf | info | unlink | stat
+  deriving DecidableEq, Repr
+
+def Fault.trouble : Fault → Bool
+  | .openf => true
+  | .info => true
+  | _ => false
+
 inductive Step where
   | mk (id : Nat) (c : Chan) (birth due : Int) (nrec : Nat)
   | load | clock (t : Int) | alrm | wake | fin
-  | pass (c : Chan) (letters : List Byte)
+  | pass (c : Chan) (letters : List Byte) (fault : Fault := .none)
   | bad
   deriving Repr
 
@@ -105,6 +119,87 @@ def expectedLoad (s : HSt) : List Elt × List Elt × List Elt :=
   (mtList s .loc, mtList s .rem,
    s.msgs.filterMap fun m => if m.recs0.isNone && m.recs1.isNone then some { dt := s.clock, id := m.id } else none)
 
+/-- `stat` of the channel file of `m` on channel `c` as `job_close` sees it -/
+def statOf (m : Msg) (c : Chan) : StatRes :=
+  match m.recs c with
+  | none => .noent
+  | some _ => .found (m.mt c)
+
+/-- what a completed pass computes for the started message: the records after the pass, the number of
+deliveries, bounce / too-long paragraphs added, and what `job_close` does -/
+structure PassOut where
+  job : Job
+  recs' : List Bool
+  ndel : Nat
+  p : Nat
+  t : Nat
+  close : CloseOut
+
+def passOut (s : HSt) (c : Chan) (letters : List Byte) (f : Fault) (pe : Elt) (q' : PQ) (m : Msg)
+    (recs : List Bool) : PassOut :=
+  let job := jobOpen s.clock s.lifetime m.birth c
+  let a := answer job.dying letters recs 0
+  let numtodo := (a.1.filter id).length
+  let otherStat : StatRes := if f = .stat then .err else statOf m (other c)
+  { job := job, recs' := a.1, ndel := a.2.1, p := a.2.2.1, t := a.2.2.2,
+    close := jobCloseF job pe.id true numtodo (decide (f ≠ .unlink)) otherStat s.clock q' s.done }
+
+/-- the message record after the pass -/
+def passMsg (m : Msg) (c : Chan) (o : PassOut) : Msg :=
+  { m with npar := m.npar + o.p, ntoo := m.ntoo + o.t }.setRecs c (if o.close.removed then none else some o.recs')
+
+/-- state after `pass_dochan(c)` + the whole pass it opens (reports answered by `letters`), under fault `f` -/
+def passSt (s : HSt) (c : Chan) (letters : List Byte) (f : Fault) : HSt :=
+  match passStart s.clock true (s.q c) with
+  | none => s
+  | some (pe, q') =>
+    if f.trouble then s.setQ c (passTrouble s.clock pe q')
+    else match s.find pe.id with
+      | none => s
+      | some m =>
+        match m.recs c with
+        | none => s
+        | some recs =>
+          let o := passOut s c letters f pe q' m recs
+          ({ (s.setQ c o.close.chan) with done := o.close.done }).update (passMsg m c o)
+
+/-- the event the harness must observe for that step -/
+def passEv (s : HSt) (c : Chan) (letters : List Byte) (f : Fault) : Ev :=
+  let s' := passSt s c letters f
+  match passStart s.clock true (s.q c) with
+  | none => .pass 0 0 false 0 "" 0 0 s'.q0.toList s'.q1.toList s'.done.toList
+  | some (pe, q') =>
+    if f.trouble then .pass 0 0 false 0 "" 0 0 s'.q0.toList s'.q1.toList s'.done.toList
+    else match s.find pe.id with
+      | none => .plain "bad"
+      | some m =>
+        match m.recs c with
+        | none => .plain "bad"
+        | some recs =>
+          let o := passOut s c letters f pe q' m recs
+          let m'' := passMsg m c o
+          .pass pe.id o.job.retry o.job.dying o.ndel (recsString (m''.recs c)) m''.npar m''.ntoo
+            s'.q0.toList s'.q1.toList s'.done.toList
+
+/-- one `utimes(chan file of e.id, e.dt)` of `pqfinish` -/
+def finWrite1 (c : Chan) (s : HSt) (e : Elt) : HSt :=
+  match s.find e.id with
+  | some m => s.update (m.setMt c e.dt)
+  | none => s
+
+def finWrite (c : Chan) (s : HSt) (l : List Elt) : HSt := l.foldl (finWrite1 c) s
+
+/-- `pqfinish()` (TERM): every channel heap is drained, each entry's due time stored as its file's mtime -/
+def finSt (s : HSt) : HSt :=
+  let s1 := finWrite .loc s (pqfinish (s.q .loc).size (s.q .loc))
+  let s2 := finWrite .rem s1 (pqfinish (s1.q .rem).size (s1.q .rem))
+  { s2 with q0 := #[], q1 := #[] }
+
+/-- a fresh process: `pqstart()` over the queue directory -/
+def loadSt (s : HSt) : HSt :=
+  { s with q0 := (expectedLoad s).1.foldl PQ.insert #[], q1 := (expectedLoad s).2.1.foldl PQ.insert #[],
+           done := (expectedLoad s).2.2.foldl PQ.insert #[] }
+
 def step (s : HSt) : Step → HSt × Ev
   | .bad => (s, .plain "bad")
   | .mk id c birth due nrec =>
@@ -116,8 +211,7 @@ def step (s : HSt) : Step → HSt × Ev
       ({ s with msgs := s.msgs ++ [(m.setRecs c recs).setMt c due] }, .plain "m")
   | .clock t => ({ s with clock := t }, .plain "t")
   | .load =>
-    let (l0, l1, ld) := expectedLoad s
-    let s' := { s with q0 := l0.foldl PQ.insert #[], q1 := l1.foldl PQ.insert #[], done := ld.foldl PQ.insert #[] }
+    let s' := loadSt s
     (s', .load s'.q0.toList s'.q1.toList s'.done.toList)
   | .alrm =>
     let s' := { s with q0 := pqrun s.clock s.q0, q1 := pqrun s.clock s.q1 }
@@ -125,39 +219,8 @@ def step (s : HSt) : Step → HSt × Ev
   | .wake =>
     (s, .wake (wakeupChan (wakeupChan (wakeupChan (s.clock + SLEEP_FOREVER) s.q0) s.q1) s.done))
   | .fin =>
-    let wr (s : HSt) (c : Chan) : HSt :=
-      (pqfinish (s.q c).size (s.q c)).foldl (fun s e => match s.find e.id with
-        | some m => s.update (m.setMt c e.dt)
-        | none => s) s
-    let s' := wr (wr s .loc) .rem
-    let s' := { s' with q0 := #[], q1 := #[] }
+    let s' := finSt s
     (s', .fin (mtList s' .loc) (mtList s' .rem))
-  | .pass c letters =>
-    match passStart s.clock true (s.q c) with
-    | none => (s, .pass 0 0 false 0 "" 0 0 s.q0.toList s.q1.toList s.done.toList)
-    | some (pe, q') =>
-      match s.find pe.id with
-      | none => (s, .plain "bad")
-      | some m =>
-        match m.recs c with
-        | none => (s, .plain "bad")
-        | some recs =>
-          let job := jobOpen s.clock s.lifetime m.birth c
-          let (recs', ndel, p, t) := answer job.dying letters recs 0
-          let numtodo := (recs'.filter id).length
-          let m' := { m with npar := m.npar + p, ntoo := m.ntoo + t }
-          let s1 := s.setQ c q'
-          match jobClose job pe.id numtodo q' with
-          | some q'' =>
-            let m'' := m'.setRecs c (some recs')
-            let s2 := (s1.setQ c q'').update m''
-            (s2, .pass pe.id job.retry job.dying ndel (recsString (some recs')) m''.npar m''.ntoo
-                   s2.q0.toList s2.q1.toList s2.done.toList)
-          | none =>
-            let m'' := m'.setRecs c none
-            let s2 := s1.update m''
-            let s3 := if (m''.recs (other c)).isNone then { s2 with done := s2.done.insert { dt := s2.clock, id := pe.id } } else s2
-            (s3, .pass pe.id job.retry job.dying ndel "gone" m''.npar m''.ntoo
-                   s3.q0.toList s3.q1.toList s3.done.toList)
+  | .pass c letters f => (passSt s c letters f, passEv s c letters f)
 
 end Nq.SchedHist
